@@ -34,6 +34,7 @@ type Contract struct {
 	Ensures  []*Clause
 	Always   []*Clause // two-state invariants (entry state vs now) that must hold after every call made by the function
 	Decrs    []*Clause // loop N decreases EXPR
+	RetReqs  []*Clause // loop N return-requires EXPR
 	Steps    []*Clause // guarantee of every single call made by the function (state before that call vs after it)
 	Invs     []*Clause
 	Lets     []letDef
@@ -293,6 +294,13 @@ func (sp *Specs) parseContractFile(path string, pkgPath string) error {
 			case "loop":
 				// loop N invariant EXPR
 				lf := strings.Fields(body)
+				if len(lf) >= 3 && lf[1] == "return-requires" {
+					fmt.Sscanf(lf[0], "%d", &cl.Loop)
+					cl.Kind = "return-requires"
+					cl.Expr = strings.TrimSpace(strings.SplitN(body, "return-requires", 2)[1])
+					cur.RetReqs = append(cur.RetReqs, cl)
+					break
+				}
 				if len(lf) >= 3 && lf[1] == "decreases" {
 					// loop N decreases EXPR (termination measure)
 					fmt.Sscanf(lf[0], "%d", &cl.Loop)
